@@ -53,6 +53,7 @@ var c07Actions = []string{"full", "full+reread", "abandon+close", "over-limit", 
 func runC07(r *Run) {
 	t := r.Tape
 	nSlots := 2 + t.Draw(3)
+	r.DrawYields()
 	r.S.MaxSteps = 80000
 	r.S.MaxSim = 5 * time.Minute
 	r.S.Stick = []int{0, 40, 80}[t.Draw(3)]
